@@ -1067,6 +1067,11 @@ impl<'a> Model<'a> {
             StmtKind::Print { dev, items, using } => self.exec_print(s, key, *dev, items, using),
             StmtKind::Assign { var, expr } => {
                 let v = self.eval_int(expr, s.id)?;
+                if var.ends_with('%') && !(-32768..=32767).contains(&v) {
+                    // the value of a LONG function that does not fit the INTEGER target
+                    self.probe("assignment_overflow_after_call_returned");
+                    return Ok(Err(Failure { code: Some(6) }));
+                }
                 self.set_int(var, v);
                 Ok(Ok(Flow::Next))
             }
